@@ -23,6 +23,9 @@ def enumerate_specs(tier):
                 masks = [m for m in masks if sum(m) in (1, n)]
             for m in masks:
                 specs.append({"op": name, "args": args, "variant": {"req": list(m)}})
+            ci = len(specs)
+            if ci % 4 == 0 and len(od.inputs(args)[0].shape) >= 2:     # first operand as a non-contiguous view
+                specs.append({"op": name, "args": args, "variant": {"req": [1] * n, "layout": "T" if ci % 8 == 0 else "S"}})
     return specs
 
 
